@@ -23,6 +23,9 @@ func (_ ValueString) Kind() ValueKind { return StringValueKind }
 func (self ValueString) Display() (string, *Interrupt) { return self.Inner, nil }
 
 func (self ValueString) IsEqual(other Value) (bool, *Interrupt) {
+	if other.Kind() != self.Kind() {
+		return false, nil
+	}
 	return self.Inner == other.(ValueString).Inner, nil
 }
 
